@@ -89,7 +89,18 @@ eav_result_t *is_6531_email(const char *e, size_t l, bool t) { return cb_invoke(
 #endif
 
 /* the IDN library's message function: one fixed non-empty message, argument recorded */
-static const char cb_idn_message[] = "idn-library-message";
+/* longer than any fixed scratch buffer a copy might be squeezed into */
+static const char cb_idn_message[] = "idn-library-message: string contains a character that is forbidden in the non-transitional mode of IDNA2008 (TR46)";
+static int cb_same_text(const char *a, const char *b)
+{
+    if (a == NULL || b == NULL) return 0;
+    for (unsigned i = 0; i < sizeof cb_idn_message; i++) {
+        if (a[i] != b[i]) return 0;
+        if (a[i] == 0) return 1;
+    }
+    return 1;
+}
+#define CB_IS_IDN_MESSAGE(m) cb_same_text((m), cb_idn_message)
 static int cb_strerror_calls;
 static long cb_strerror_arg;
 #if defined(HAVE_LIBIDN2)
